@@ -231,6 +231,7 @@ def run(ck, fb):
         ck.require(len(sd) >= 1 and all(cfg.origin_fields(rp, a['ops'][0])[-1:] == ['current_range'] or Taint(rp, place_src=field_place_src('current_range')).op_tainted(a['ops'][0]) for (s0, m0, v0, a) in sd),
                    'R14f', 'refresh_process_range:sends-current', rp.where(), 'refresh_process_range does not send current_range to the naming actor')
     r14g(ck, fb)
+    r14h(ck, fb)
     ck.rule('R14e', 'ownership use: NamingActor::update_instance computes at_process_range = current_range.is_range(get_hash_value(key)) and '
                     'clears from_cluster / client_id only when in range and not gRPC')
     nu = ck.body(NA + 'update_instance', 'R14e')
@@ -274,3 +275,58 @@ def r14g(ck, fb, R='R14g'):
                % (fb.root_of(b.name), msg, ('::' + v) if v else ''))
     if not bad:
         ck.ok(R, 'no-try_send', '', '%d sends, none bounded' % n)
+
+
+def _variant_of(fb, b, op, depth=0):
+    """the enum variant an operand holds when that is decided by literals: an aggregate, or a field of / the result of a Default::default()
+    whose implementation builds a literal"""
+    if depth > 6:
+        return None
+    d = cfg.describe_operand(b, op)
+    if d['k'] == 'agg' and d['rv'].get('ak') == 'adt':
+        return d['rv'].get('variant')
+    if d['k'] == 'call':
+        nm = cfg.callee_name(d['term']) or ''
+        hb = fb.bodies.get(nm)
+        if hb is not None and nm.endswith('Default>::default'):
+            vs = set(st['rv'].get('variant') for (i, j, st) in hb.aggregates() if st['d'] == 0 or True)
+            vs = set(st['rv'].get('variant') for (i, j, st) in hb.aggregates() if (hb.local_ty(0) or '').endswith(st['rv']['adt'].split('::')[-1]))
+            return list(vs)[0] if len(vs) == 1 else None
+        return None
+    if d['k'] == 'place' and d.get('root', {}).get('k') == 'call' and len(d.get('fields', [])) == 1:
+        nm = cfg.callee_name(d['root']['term']) or ''
+        hb = fb.bodies.get(nm)
+        if hb is not None and nm.endswith('Default>::default'):
+            for (i, j, st) in hb.aggregates():
+                rv = st['rv']
+                if d['fields'][0] in rv.get('fields', []):
+                    return _variant_of(fb, hb, rv['ops'][rv['fields'].index(d['fields'][0])], depth + 1)
+    return None
+
+
+def r14h(ck, fb, R='R14h'):
+    ck.rule(R, 'a node entry starts alive: ownership counts a node through is_valid() (is_local || status == Valid), routing through status == Valid '
+               'alone, so the two agree for the local node only while its own entry carries status Valid. Every ClusterInnerNode built in the node '
+               'manager (update_nodes for members, get_this_node for the local fallback) has status Valid - written out or through the Default '
+               'implementations it relies on. A default of Invalid makes a node that first saw a member list without itself route its own services '
+               'to its neighbours for as long as it runs')
+    n = 0
+    for b in fb.bodies.values():
+        if not b.name.startswith(NM) or '::tests::' in b.name or 'seeded_demo' in b.name or b.name.endswith('Default>::default'):
+            continue
+        for (i, j, st) in b.aggregates(r'node_manage::ClusterInnerNode$'):
+            rv = st['rv']
+            if 'status' not in rv['fields']:
+                continue
+            n += 1
+            ck.analysed(b)
+            v = _variant_of(fb, b, rv['ops'][rv['fields'].index('status')])
+            if v is None:
+                d = cfg.describe_operand(b, rv['ops'][rv['fields'].index('status')])
+                if d['k'] in ('arg', 'place') and not (d.get('root', {}).get('k') == 'call'):
+                    ck.ok(R, '%s:status-copied' % fb.root_of(b.name).split('::')[-1], b.where(i), 'status copied from an existing entry')
+                    continue
+            ck.require(v == 'Valid', R, '%s:new-entry-is-valid' % fb.root_of(b.name).split('::')[-1], b.where(i),
+                       '%s builds a node entry with status %s: routing (status == Valid) leaves the node out while ownership (is_local || Valid) counts '
+                       'it - for the local entry the node routes the services it owns to other nodes' % (fb.root_of(b.name), v), 'Valid')
+    ck.floor(R, 'ClusterInnerNode entries built in the node manager', n, 2)
